@@ -12,17 +12,25 @@ harness's own scanner for the oracle.  Defects are applied to every subset of th
 descriptions (`defect_matrix`).  Besides call sequences there are schedules with TWO calls in flight on one connection
 (`race`): the model runs them segment by segment (Model/Jsep/Segments.lean), the oracle checks that once a close() has
 returned the public state of that connection never changes again.
+
+Round 3: descriptions are VALUES for the property ("the local/remote descriptions are left unchanged").  The public state of every
+connection (signalingState, type AND text of localDescription / remoteDescription, transceiver mids / directions) is re-read through
+the public API after every call and compared with immutable copies taken before it.  Calls RE-USE texts (`setLocalReuse` /
+`setRemoteReuse`: any text the pair stores / was handed / created, verbatim, under every type), the same description OBJECT travels
+to every call that is given the same (text, type), in `mut` cases the application overwrites every description object after use, and
+`twin` cases run a second pair in the same process that is fed the first pair's texts (Model/Jsep/System.lean, Props/C14Reuse.lean).
 """
 from __future__ import annotations
 
 import itertools
 import json
 import os
+import zlib
 
 from harness.check import Component, case_key
 
-LEAN_TARGETS = ["Aiortc.Props.C14", "Aiortc.Props.C14Flight"]
-AUDIT_PROPS = ["C14", "C14Flight"]
+LEAN_TARGETS = ["Aiortc.Props.C14", "Aiortc.Props.C14Flight", "Aiortc.Props.C14Reuse"]
+AUDIT_PROPS = ["C14", "C14Flight", "C14Reuse"]
 DRIVERS = ["Signaling"]
 MANIFEST = {
     "technique": "Lean 4 refinement proof (abstract signalling model of RTCPeerConnection refines a JSEP spec, for all call "
@@ -41,7 +49,14 @@ MANIFEST = {
             "answers, in every signalling state. Model/Jsep/Segments.lean splits every call into its atomic segments between awaits; "
             "Props/C14Flight.lean proves closed absorbing for any number of calls in flight under any schedule and that a call "
             "overtaken by close() refines the JSEP machine as 'close, then the call'; the tie starts a call as a task, steps the "
-            "event loop k times, issues close() or another negotiation call, and compares with the model run on the observed schedule.",
+            "event loop k times, issues close() or another negotiation call, and compares with the model run on the observed schedule. "
+            "Round 3: descriptions are values in the model; Props/C14Reuse.lean states the instances where a call carries a text the "
+            "connection already stores under another type (rejected, stored type unchanged) or the same description twice, and proves "
+            "that connections of one process are independent (Model/Jsep/System.lean: runSys_proj - each connection follows `run` on "
+            "the calls that name it). The tie hands every text a pair has stored / been given / created back to either call of either "
+            "peer under every type, passes one description object per (text, type) to all calls, lets the application overwrite "
+            "description objects after use, runs a second pair in the same process on the first pair's texts, and compares the whole "
+            "public state (type and text of both descriptions, transceivers) re-read after the call with copies taken before it.",
     "note": "The model is of the tree with fixes/C14-dtls-params-missing.patch and fixes/C14-answer-unmatched-transceiver.patch "
             "applied; the unpatched tree fails the corpus witnesses (AttributeError instead of ValueError; state changed by a "
             "raising setLocalDescription(answer)). pranswer/rollback are outside the property's alphabet (modelled, tied by an "
@@ -71,6 +86,10 @@ TRUSTED_EXTRA = [
     "the harness abstracts SDP text to (type, session-level ice-ufrag?/ice-pwd?/setup class, [(kind, mid, own ice-ufrag?, own "
     "ice-pwd?, own setup class, rtcp-mux?)]) with its own line scanner; Model/Jsep/Inherit.lean is a model of the corresponding "
     "part of SessionDescription.parse (tied through the acceptance / rejection of every description the cases deliver)",
+    "only localDescription / remoteDescription are public in aiortc (no current/pending getters): the four slots are observed "
+    "through them; transceivers are observed as (kind, mid, direction, currentDirection) + the SCTP transport's mid and compared "
+    "only where the property demands `unchanged` (a call that raised, a connection that was not called); not for pranswer / rollback "
+    "(setRemoteDescription applies their media sections before it notices that the connection is closed)",
     "which schedule a race took is observed from outside (had the first call returned before the second was issued; which of the "
     "two returned first); the model is run on that schedule",
 ]
@@ -87,12 +106,31 @@ RULE = ("case = media configuration of the two peers + call sequence [(peer, op,
         "thorough: all 2400); mismatch matrix likewise; races: first call started as a task, event loop stepped k in "
         "{0,1,2,3,4,6,9,14} times, second call awaited, then the first - all pairs (negotiation call, close) / (close, negotiation "
         "call) / (close, close) x 8 prefixes x 3 configurations x 2 peers (quick: 420 drawn, thorough: all 5760) + pairs of "
-        "negotiation calls (120 / 2500 drawn), followed by calls that must find the connection closed; distinct = distinct "
-        "(configuration, sequence)")
+        "negotiation calls (120 / 2500 drawn), followed by calls that must find the connection closed; re-use matrix: 3 "
+        "configurations x 2 peers x 8 states (descriptions applied explicitly) x setLocal/setRemote x 14 sources (localDescription / "
+        "remoteDescription getter, text last accepted by setLocal / setRemote, text last handed to any call, created offer / answer - "
+        "of the peer and of its partner) x 5 types, the call issued twice (same object) and followed by a legal call (quick: 420 "
+        "drawn, thorough: all 6720), every second case with the application overwriting description objects after each call; twin "
+        "matrix: pair A in 4 states x pair B fresh / with an own offer / holding the same texts x 10 sources of pair A x 4 types "
+        "(quick: 140 drawn, thorough: all 5120); short random sequences ending in re-use calls (300 / 4000, a quarter over two "
+        "pairs); the random walks draw re-use calls with probability 0.09 and a quarter of them runs in `mut` mode; distinct = "
+        "distinct (configuration, sequence)")
 
 OPS = ["createOffer", "createAnswer", "setLocalOffer", "setLocalAnswer", "setLocalImplicit",
        "setRemoteOffer", "setRemoteAnswer", "setRemoteMismatched", "setRemoteDefective", "close"]
 EXT_OPS = ["setLocalTyped", "setRemoteTyped"]          # pranswer / rollback: outside the property's alphabet
+# round 3: a description whose TEXT is one the pair (or a second pair in the same process) has already seen, handed to the
+# call verbatim (no fresh tag) under any type.  variant = "<owner><what>-<type>":
+#   owner  o = the peer itself, p = its partner, x = the peer's twin in the second pair, y = the partner's twin
+#   what   l / r = the sdp of that peer's localDescription / remoteDescription as the public getter returns it now,
+#          L / R = the text last handed to a setLocalDescription / setRemoteDescription of that peer that succeeded,
+#          n = the text last handed to any set*Description of that peer, accepted or not (edited copies - mismatched /
+#              defective - excepted),
+#          c / a = the offer / answer that peer created last (as the application passes it on)
+#   type   offer | answer | pranswer | rollback | bogus
+REUSE_OPS = ["setLocalReuse", "setRemoteReuse"]
+REUSE_WHAT = "lrLRnca"
+REUSE_TYPES = ["offer", "answer", "pranswer", "rollback", "bogus"]
 MISMATCH = ["mid", "extra", "drop"]
 # defect kinds the validator knows: what is taken away from (emptied in) the selected m-sections; variant string =
 # "<offer|answer>-<kind>[-<sections>[-<m|s>]]" (sections: 'all' or digits; m = media level only, s = also at session level)
@@ -102,7 +140,8 @@ CFGS = ["dc", "audio", "both", "dc|both", "both|audio", "av", "avd", "avd/u", "v
 MULTI_CFGS = ["both", "av", "avd", "avd/u", "va"]
 SHORT = {"createOffer": "co", "createAnswer": "ca", "setLocalOffer": "sl", "setLocalAnswer": "sl", "setLocalImplicit": "si",
          "setRemoteOffer": "sr", "setRemoteAnswer": "sr", "setRemoteMismatched": "sr", "setRemoteDefective": "sr",
-         "setLocalTyped": "sl", "setRemoteTyped": "sr", "close": "cl", "autoClose": "cl"}
+         "setLocalTyped": "sl", "setRemoteTyped": "sr", "setLocalReuse": "sl", "setRemoteReuse": "sr",
+         "close": "cl", "autoClose": "cl"}
 
 # ----------------------------------------------------------------------------------------------------
 # SDP text helpers (the harness's own scanner; aiortc's parser is not used for abstraction)
@@ -156,7 +195,7 @@ def scan(sdp, typ):
         m["ufrag"] = bool(own["ufrag"] if own["ufrag"] is not None else sess["ufrag"])
         m["pwd"] = bool(own["pwd"] if own["pwd"] is not None else sess["pwd"])
         m["role"] = own["role"] or sess["role"] or "n"
-    return {"id": ident, "type": typ, "sess": sess, "media": media}
+    return {"id": ident, "type": typ, "sess": sess, "media": media, "h": "%08x" % zlib.crc32(sdp.encode())}
 
 
 def keys_str(media):
@@ -344,11 +383,15 @@ class _Runner:
     def __init__(self, case):
         self.case = case
         self.cfgs, self.unbundled = _cfg_parts(case["cfg"])
+        self.n = 4 if case.get("twin") else 2      # twin: a SECOND pair (peers 2, 3) in the same process
+        self.mut = bool(case.get("mut"))           # the application overwrites description objects after use
         self.next_id = 1
-        self.ev = [0, 0]
-        self.last_offer = [None, None]     # (sdp, type) created by / for the peer
-        self.last_answer = [None, None]
-        self.auto = [False, False]         # the connection asked to close itself
+        self.ev = [0] * self.n
+        self.last_offer = [None] * self.n  # sdp created by / for the peer
+        self.last_answer = [None] * self.n
+        self.passed = [{"L": None, "R": None, "n": None} for _ in range(self.n)]   # texts handed to set*Description
+        self.objs = {}                     # (sdp, type) -> the RTCSessionDescription OBJECT the application holds
+        self.auto = [False] * self.n       # the connection asked to close itself
         self.real_close = []
 
     def fresh(self):
@@ -357,11 +400,27 @@ class _Runner:
         return n
 
     def obs(self, p):
+        """the public state of peer p, re-read through the public API and copied into immutable values NOW (nothing in the
+        result refers to an object of the implementation): signalingState, type / text of localDescription and
+        remoteDescription, the transceivers' (kind, mid, direction, currentDirection) and the SCTP transport's mid"""
         pc = self.pcs[p]
         l, r = pc.localDescription, pc.remoteDescription
-        la = scan(l.sdp, l.type) if l is not None else None
-        ra = scan(r.sdp, r.type) if r is not None else None
-        return {"state": pc.signalingState, "local": la, "remote": ra, "ev": self.ev[p]}
+        la = scan(str(l.sdp), str(l.type)) if l is not None else None
+        ra = scan(str(r.sdp), str(r.type)) if r is not None else None
+        return {"state": str(pc.signalingState), "local": la, "remote": ra, "ev": self.ev[p], "xt": self.transceivers(pc)}
+
+    @staticmethod
+    def transceivers(pc):
+        try:
+            out = [f"{t.kind}.{t.mid}.{t.direction}.{t.currentDirection}" for t in pc.getTransceivers()]
+            if pc.sctp is not None:
+                out.append(f"sctp.{pc.sctp.mid}")
+            return "+".join(out) or "-"
+        except AttributeError:        # not observable on this tree: not judged
+            return "?"
+
+    def all_obs(self):
+        return [self.obs(i) for i in range(self.n)]
 
     @staticmethod
     def obs_str(o):
@@ -383,14 +442,14 @@ class _Runner:
         return retag(self.fabricate_answer(self.last_offer[p]), self.fresh()), "answer"
 
     def remote_offer(self, p):
-        q = 1 - p
+        q = p ^ 1
         l = self.pcs[q].localDescription
         if self.pcs[q].signalingState == "have-local-offer" and l is not None:
             return self.wire(l.sdp), "offer"
         return self.wire(self.last_offer[q]), "offer"
 
     def remote_answer(self, p):
-        q = 1 - p
+        q = p ^ 1
         l = self.pcs[q].localDescription
         if l is not None and l.type == "answer":
             return self.wire(l.sdp), "answer"
@@ -409,8 +468,28 @@ class _Runner:
         sdp, _ = self.remote_offer(p) if typ == "offer" else self.remote_answer(p)
         return apply_defect(sdp, what, sel, place), typ
 
+    def source(self, p, src):
+        """the text a re-use variant refers to (None: there is no such text yet)"""
+        who = {"o": p, "p": p ^ 1, "x": p ^ 2, "y": p ^ 3}[src[0]]
+        if who >= self.n:
+            who &= 1                # no second pair in this case: the twin of a peer is the peer itself
+        what = src[1]
+        if what in "lr":
+            d = self.pcs[who].localDescription if what == "l" else self.pcs[who].remoteDescription
+            return None if d is None else str(d.sdp)
+        if what == "c":
+            return self.last_offer[who]
+        if what == "a":
+            return self.last_answer[who]
+        return self.passed[who][what]
+
     def arg_for(self, p, op, var):
-        """(sdp, type) handed to the call, or None for calls without a description argument"""
+        """(sdp, type) handed to the call, None for calls without a description argument, 'void' if a re-use variant
+        refers to a text that does not exist yet"""
+        if op in REUSE_OPS:
+            src, _, typ = var.partition("-")
+            text = self.source(p, src)
+            return "void" if text is None else (text, typ)
         if op == "setLocalOffer":
             return self.local_offer(p)
         if op == "setLocalAnswer":
@@ -439,15 +518,22 @@ class _Runner:
         from aiortc import RTCSessionDescription
 
         pc = self.pcs[p]
-        if op == "createOffer":
-            d = await pc.createOffer()
-            self.last_offer[p] = retag(d.sdp, self.fresh())
+        if op in ("createOffer", "createAnswer"):
+            d = await (pc.createOffer() if op == "createOffer" else pc.createAnswer())
             info["created"] = scan(d.sdp, d.type)
-            return f"created={d.type}/{full_str(info['created']['media'])}"
-        if op == "createAnswer":
-            d = await pc.createAnswer()
-            self.last_answer[p] = retag(d.sdp, self.fresh())
-            info["created"] = scan(d.sdp, d.type)
+            # the application tags the description it got (writes into the OBJECT the call returned) and keeps that object
+            # for the set*Description calls that follow
+            text = retag(d.sdp, self.fresh())
+            if op == "createOffer":
+                self.last_offer[p] = text
+            else:
+                self.last_answer[p] = text
+            try:
+                d.sdp = text
+                self.objs[(text, str(d.type))] = d
+            except Exception:  # noqa: BLE001 - an immutable description object: the application builds a new one
+                pass
+            info["objs"] = [d]
             return f"created={d.type}/{full_str(info['created']['media'])}"
         if op == "setLocalImplicit":
             await pc.setLocalDescription()
@@ -458,16 +544,48 @@ class _Runner:
                 else:
                     self.last_answer[p] = retag(l.sdp, self.fresh())
             return "ok"
-        if op in ("setLocalOffer", "setLocalAnswer", "setLocalTyped"):
-            await pc.setLocalDescription(RTCSessionDescription(sdp=arg[0], type=arg[1]))
-            return "ok"
-        if op.startswith("setRemote"):
-            await pc.setRemoteDescription(RTCSessionDescription(sdp=arg[0], type=arg[1]))
+        if op.startswith("setLocal") or op.startswith("setRemote"):
+            # one description OBJECT per (text, type): a text that is handed over again - to the same call, to the other
+            # call, to the other peer, to the other pair - travels in the very same object
+            desc = self.objs.get((arg[0], arg[1]))
+            if desc is None:
+                desc = self.objs[(arg[0], arg[1])] = RTCSessionDescription(sdp=arg[0], type=arg[1])
+            info["objs"] = [desc]
+            side = "L" if op.startswith("setLocal") else "R"
+            if op not in ("setRemoteMismatched", "setRemoteDefective"):
+                # (the texts of those two are EDITED copies: a section of another kind, another order, without mid ... - applied
+                # under another label or locally they run into the codec negotiation (OperationError) or into what
+                # setLocalDescription does with a description createOffer would never produce; both are outside the property
+                # and the model, so such a text is not offered for re-use)
+                self.passed[p]["n"] = arg[0]
+            if side == "L":
+                await pc.setLocalDescription(desc)
+            else:
+                await pc.setRemoteDescription(desc)
+            self.passed[p][side] = arg[0]
             return "ok"
         if op == "close":
             await self.real_close[p]()
             return "ok"
         raise RuntimeError("unknown op " + op)
+
+    def scribble(self, objs):
+        """the application re-uses the description objects it holds for something else: every object it passed to / got from
+        the call, and the objects the localDescription / remoteDescription getters hand out, get another type and text.
+        RTCSessionDescription is a plain value for the application; the connection must have kept its own copy."""
+        objs = list(objs)
+        for pc in self.pcs:
+            objs += [pc.localDescription, pc.remoteDescription]
+        for o in objs:
+            if o is None:
+                continue
+            for k in [k for k, v in self.objs.items() if v is o]:
+                del self.objs[k]
+            try:
+                o.type = "offer" if o.type != "offer" else "answer"
+                o.sdp = "v=0\r\n"
+            except Exception:  # noqa: BLE001 - immutable: nothing to overwrite
+                pass
 
     async def race(self, p, first, second, k):
         """Two calls in flight on peer p: `first` is started as a task, the event loop is stepped k times (k = 0: the task has
@@ -478,6 +596,7 @@ class _Runner:
 
         ops = [first, second]
         args = [self.arg_for(p, c[0], c[1] if len(c) > 1 else None) for c in ops]
+        args = [None if a == "void" else a for a in args]
         infos = [{}, {}]
         order = []
         at_return = [None, None]
@@ -489,7 +608,7 @@ class _Runner:
             except Exception as exc:  # noqa: BLE001
                 results[i] = _exc_name(exc)
             order.append(i)
-            at_return[i] = [self.obs(0), self.obs(1)]
+            at_return[i] = self.all_obs()
 
         task = asyncio.ensure_future(wrapped(0))
         for _ in range(k):
@@ -497,10 +616,10 @@ class _Runner:
         first_done = task.done()
         await wrapped(1)
         await task
-        settled = [self.obs(0), self.obs(1)]
+        settled = self.all_obs()
         for _ in range(6):
             await asyncio.sleep(0)
-        later = [self.obs(0), self.obs(1)]
+        later = self.all_obs()
         if k == 0:
             sched = "ba" + ("ab" if order == [0, 1] else "ba")
         elif first_done:
@@ -518,11 +637,17 @@ class _Runner:
 
         from aiortc import RTCPeerConnection
 
-        self.pcs = [RTCPeerConnection(), RTCPeerConnection()]
+        # no STUN server: gathering stays on the host (the default configuration resolves a public STUN server in a worker
+        # thread for every gathering, which is most of the cost of a case and has nothing to do with signalling)
+        try:
+            from aiortc import RTCConfiguration
+            self.pcs = [RTCPeerConnection(RTCConfiguration(iceServers=[])) for _ in range(self.n)]
+        except Exception:  # noqa: BLE001 - configuration API not as expected: default connections
+            self.pcs = [RTCPeerConnection() for _ in range(self.n)]
         steps = []
         try:
             for p, pc in enumerate(self.pcs):
-                for ch in CFG_MEDIA[self.cfgs[p]]:
+                for ch in CFG_MEDIA[self.cfgs[p & 1]]:
                     if ch == "d":
                         pc.createDataChannel("c14")
                     else:
@@ -546,32 +671,34 @@ class _Runner:
                 self.last_offer[p] = retag(o.sdp, self.fresh())
 
             for call in self.case["calls"]:
-                for q in (0, 1):
+                for q in range(self.n):
                     if self.auto[q] and self.pcs[q].signalingState != "closed":
-                        before = [self.obs(0), self.obs(1)]
+                        before = self.all_obs()
                         try:
                             await self.real_close[q]()
                             res = "ok"
                         except Exception as exc:  # noqa: BLE001
                             res = _exc_name(exc)
                         steps.append({"p": q, "op": "autoClose", "var": None, "arg": None, "created": None, "res": res,
-                                      "before": before, "after": [self.obs(0), self.obs(1)]})
+                                      "before": before, "after": self.all_obs()})
                 p, op = call[0], call[1]
                 var = call[2] if len(call) > 2 else None
                 if (self.cfgs[0] != self.cfgs[1] and op == "setRemoteOffer"
-                        and self.pcs[1 - p].signalingState != "have-local-offer"):
+                        and self.pcs[p ^ 1].signalingState != "have-local-offer"):
                     # asymmetric pair: only an offer that the other peer has applied locally is consistent with the
                     # negotiation history (m-sections keep their mid); nothing to deliver otherwise -> the step is void
                     continue
-                before = [self.obs(0), self.obs(1)]
+                before = self.all_obs()
                 if op == "race":
                     r = await self.race(p, call[2], call[3], call[4])
                     steps.append({"p": p, "op": "race", "var": None, "arg": None, "created": None, "res": "race",
                                   "race": r, "before": before, "after": r["later"]})
                     continue
                 arg = self.arg_for(p, op, var)       # (sdp, type) handed to the call
+                if arg == "void":
+                    continue                         # a re-use variant without a text to re-use: nothing is called
                 arg_abs = scan(arg[0], arg[1]) if arg is not None else None
-                info = {}
+                info = {"var": var}
                 try:
                     if op == "settle":      # environment: let ICE / DTLS / SCTP run (no call is made)
                         await asyncio.sleep(0.4)
@@ -580,9 +707,12 @@ class _Runner:
                         res = await self.invoke(p, op, arg, info)
                 except Exception as exc:  # noqa: BLE001 - every exception class is an observation
                     res = _exc_name(exc)
-                after = [self.obs(0), self.obs(1)]
+                after = self.all_obs()
                 steps.append({"p": p, "op": op, "var": var, "arg": arg_abs, "created": info.get("created"), "res": res,
                               "before": before, "after": after})
+                if self.mut and op != "settle":
+                    self.scribble(info.get("objs", ()))
+                    steps[-1]["scribbled"] = self.all_obs()
         finally:
             for i, pc in enumerate(self.pcs):
                 try:
@@ -630,7 +760,7 @@ def run_case(case):
         if st["op"] == "settle":
             continue
         p = st["p"]
-        tail = "|" + _Runner.obs_str(st["after"][0]) + "|" + _Runner.obs_str(st["after"][1])
+        tail = "".join("|" + _Runner.obs_str(o) for o in st["after"])
         if st["op"] == "race":
             r = st["race"]
             out.append("&".join(c["res"] for c in r["calls"]) + tail)
@@ -639,7 +769,8 @@ def run_case(case):
         else:
             out.append(st["res"] + tail)
             line.append(f"{p}:" + _call_line(st["op"], st["arg"], st["created"], st["res"], st["after"][p]["local"]))
-    return ";".join(out) or "-", "signaling run " + (";".join(line) or "-"), steps
+    req = "signaling runn 4 " if case.get("twin") else "signaling run "
+    return ";".join(out) or "-", req + (";".join(line) or "-"), steps
 
 
 def _pool_run(case):
@@ -662,10 +793,36 @@ JSEP = {  # (state, side, type) -> next state
 }
 
 
-def _same(o1, o2, with_events=True):
-    a = (o1["state"], slot_str(o1["local"]), slot_str(o1["remote"]))
-    b = (o2["state"], slot_str(o2["local"]), slot_str(o2["remote"]))
+def _text(a):
+    return "-" if a is None else a["h"]
+
+
+def _same(o1, o2, with_events=True, with_xt=True):
+    """the whole public state: signalingState, type AND text of both descriptions, transceivers / SCTP mid, event count"""
+    a = (o1["state"], slot_str(o1["local"]), slot_str(o1["remote"]), _text(o1["local"]), _text(o1["remote"]))
+    b = (o2["state"], slot_str(o2["local"]), slot_str(o2["remote"]), _text(o2["local"]), _text(o2["remote"]))
+    if with_xt and "?" not in (o1.get("xt", "?"), o2.get("xt", "?")) and o1["xt"] != o2["xt"]:
+        return False
     return a == b and (not with_events or o1["ev"] == o2["ev"])
+
+
+def _show(o):
+    return (f"{_Runner.obs_str(o)} [sdp {_text(o['local'])}/{_text(o['remote'])}; transceivers {o.get('xt', '?')}]")
+
+
+def _is_ext(st):
+    """pranswer / rollback descriptions: outside the property's alphabet"""
+    return st["op"] in EXT_OPS or (st["op"] in REUSE_OPS and st["arg"]["type"] in ("pranswer", "rollback"))
+
+
+def _others_changed(st, what):
+    """a call on one connection must not change any OTHER connection (its partner, or a connection of another pair
+    living in the same process)"""
+    for q in range(len(st["before"])):
+        if q != st["p"] and not _same(st["before"][q], st["after"][q]):
+            return (f"{what} on peer {st['p']} changed the public state of peer {q}: {_show(st['before'][q])} -> "
+                    f"{_show(st['after'][q])}")
+    return None
 
 
 def judge_step(st, ext_seen=False):
@@ -673,18 +830,22 @@ def judge_step(st, ext_seen=False):
     only the clauses that do not depend on the description slots are judged."""
     p, op, res = st["p"], st["op"], st["res"]
     b, a = st["before"][p], st["after"][p]
-    q = 1 - p
-    if not _same(st["before"][q], st["after"][q]):
-        return f"{op} on peer {p} changed the public signalling state of peer {q}"
+    why = _others_changed(st, op + (f"({st['arg']['type']})" if st.get("arg") else ""))
+    if why:
+        return why
     if b["state"] == "closed" and a["state"] != "closed":
         return f"closed is not absorbing: {op} moved a closed connection to {a['state']}"
     if op == "settle":
-        return None if _same(b, a) else f"the connection changed without a call: {_Runner.obs_str(b)} -> {_Runner.obs_str(a)}"
-    if op in EXT_OPS or (ext_seen and b["state"] != "closed"):
-        return None       # (a closed connection is judged whatever happened before: every clause below holds for it)
+        return None if _same(b, a) else f"the connection changed without a call: {_show(b)} -> {_show(a)}"
     failed = not (res == "ok" or res.startswith("created="))
-    if failed and not _same(b, a):
-        return (f"{op} raised {res} but changed the connection: {_Runner.obs_str(b)} -> {_Runner.obs_str(a)}")
+    if failed and not _same(b, a, with_xt=not _is_ext(st)):
+        # whatever the call was (also outside the alphabet, also after such a call): it raised, so nothing may have moved
+        # (transceivers are not compared for pranswer / rollback: setRemoteDescription applies the media sections of such a
+        # description before it notices that the connection is closed)
+        return (f"{op}{'(' + st['arg']['type'] + ')' if st.get('arg') else ''} raised {res} but changed the connection: "
+                f"{_show(b)} -> {_show(a)}")
+    if _is_ext(st) or (ext_seen and b["state"] != "closed"):
+        return None       # (a closed connection is judged whatever happened before: every clause below holds for it)
     if res.startswith("crash="):
         return f"{op} in state {b['state']} raised {res[6:]} (neither InvalidStateError nor ValueError)"
     if op in ("close", "autoClose"):
@@ -749,7 +910,7 @@ def judge_step(st, ext_seen=False):
 
 
 def _pub(o):
-    return (o["state"], slot_str(o["local"]), slot_str(o["remote"]), o["ev"])
+    return (o["state"], slot_str(o["local"]), slot_str(o["remote"]), o["ev"], _text(o["local"]), _text(o["remote"]))
 
 
 def _res_class_ok(res):
@@ -762,11 +923,11 @@ def judge_race(st):
     peer is untouched, a closed connection stays as it is and rejects both calls, and when one of the two is close() it
     returns normally, the connection ends up closed and the call it overtook ends in one of the legal result classes."""
     p, r = st["p"], st["race"]
-    q = 1 - p
     b, a = st["before"][p], st["after"][p]
     ops = "%s || %s (k=%d)" % (r["calls"][0]["op"], r["calls"][1]["op"], r["k"])
-    if not _same(st["before"][q], st["after"][q]):
-        return f"{ops} on peer {p} changed the public signalling state of peer {q}"
+    why = _others_changed(st, ops)
+    if why:
+        return why
     if b["state"] == "closed":
         if _pub(a) != _pub(b):
             return f"closed is not absorbing: {ops} changed a closed connection: {_Runner.obs_str(b)} -> {_Runner.obs_str(a)}"
@@ -789,7 +950,7 @@ def judge_race(st):
 
 def judge_trace(steps):
     """The property on the whole observed trace: None or 'step i: why'."""
-    snap = [None, None]      # public state of a peer at the moment a close() on it returned
+    snap = [None] * (len(steps[0]["before"]) if steps else 2)   # public state of a peer at the moment a close() on it returned
     ext_seen = False
     for i, st in enumerate(steps):
         # every observation of this step in temporal order: (what, [obs peer 0, obs peer 1], close() returned on peer?)
@@ -805,7 +966,7 @@ def judge_trace(steps):
             closes = st["op"] in ("close", "autoClose") and st["res"] == "ok"
             points = [(f"after {st['op']}", st["after"], st["p"] if closes else None)]
         for what, obs, closed_peer in points:
-            for q in (0, 1):
+            for q in range(len(obs)):
                 if snap[q] is not None and _pub(obs[q]) != snap[q][1]:
                     return (f"step {i}: closed is not absorbing: close() on peer {q} had returned in step {snap[q][0]} with "
                             f"{','.join(map(str, snap[q][1]))}, but {what} (peer {st['p']}) peer {q} shows "
@@ -818,7 +979,12 @@ def judge_trace(steps):
         why = judge_race(st) if st["op"] == "race" else judge_step(st, ext_seen)
         if why:
             return f"step {i}: {why}"
-        ext_seen = ext_seen or st["op"] in EXT_OPS or st["op"] == "race"
+        for q, (o1, o2) in enumerate(zip(st["after"], st.get("scribbled", ()))):
+            if not _same(o1, o2):
+                return (f"step {i}: after {st['op']} on peer {st['p']} the application overwrote .type / .sdp of the description "
+                        f"objects it had passed to / received from the connections (they are plain values for it), and the state of "
+                        f"peer {q} followed: {_show(o1)} -> {_show(o2)}")
+        ext_seen = ext_seen or _is_ext(st) or st["op"] == "race"
     return None
 
 
@@ -849,7 +1015,12 @@ def _mismatch_variants(nsec):
     return MISMATCH + [f"{v}@{i}" for i in range(nsec) for v in ("mid", "nomid", "drop", "kind")] + ["swap@1"]
 
 
-def _with_variants(rng, calls, nsec=1):
+def _reuse_variant(rng, twin=False):
+    typ = rng.choice(["offer", "answer", "offer", "answer", "pranswer", "rollback", "bogus"])
+    return rng.choice("opxy" if twin else "op") + rng.choice(REUSE_WHAT) + "-" + typ
+
+
+def _with_variants(rng, calls, nsec=1, twin=False):
     out = []
     for c in calls:
         p, op = c[0], c[1]
@@ -859,24 +1030,34 @@ def _with_variants(rng, calls, nsec=1):
             out.append([p, op, _defect_variant(rng, nsec)])
         elif op in EXT_OPS:
             out.append([p, op, rng.choice(["pranswer", "rollback"])])
+        elif op in REUSE_OPS:
+            out.append([p, op, _reuse_variant(rng, twin)])
         else:
             out.append([p, op])
     return out
 
 
-def _prefixes(p):
-    """call sequences that bring peer p into each signalling state (fresh and after a completed negotiation)"""
-    q = 1 - p
-    answered = [[q, "setLocalImplicit"], [p, "setRemoteOffer"], [p, "setLocalImplicit"], [q, "setRemoteAnswer"]]
-    offered = [[p, "setLocalImplicit"], [q, "setRemoteOffer"], [q, "setLocalImplicit"], [p, "setRemoteAnswer"]]
+def _prefixes(p, explicit=False):
+    """call sequences that bring peer p into each signalling state (fresh and after a completed negotiation);
+    explicit: the application creates every description itself and hands it on (so it knows every text the pair stores)"""
+    q = p ^ 1
+
+    def lo(x):
+        return [[x, "createOffer"], [x, "setLocalOffer"]] if explicit else [[x, "setLocalImplicit"]]
+
+    def la(x):
+        return [[x, "createAnswer"], [x, "setLocalAnswer"]] if explicit else [[x, "setLocalImplicit"]]
+
+    answered = lo(q) + [[p, "setRemoteOffer"]] + la(p) + [[q, "setRemoteAnswer"]]
+    offered = lo(p) + [[q, "setRemoteOffer"]] + la(q) + [[p, "setRemoteAnswer"]]
     return {
         "stable": [],
-        "have-local-offer": [[p, "setLocalImplicit"]],
-        "have-remote-offer": [[q, "setLocalImplicit"], [p, "setRemoteOffer"]],
+        "have-local-offer": lo(p),
+        "have-remote-offer": lo(q) + [[p, "setRemoteOffer"]],
         "stable/answered": answered,
         "stable/offered": offered,
-        "have-local-offer/again": answered + [[p, "setLocalImplicit"]],
-        "have-remote-offer/again": offered + [[q, "setLocalImplicit"], [p, "setRemoteOffer"]],
+        "have-local-offer/again": answered + lo(p),
+        "have-remote-offer/again": offered + lo(q) + [[p, "setRemoteOffer"]],
         "closed": [[p, "close"]],
     }
 
@@ -913,6 +1094,61 @@ def mismatch_matrix():
     return out
 
 
+def reuse_matrix():
+    """Descriptions that RE-USE a text: in every signalling state (fresh / after a negotiation / closed; descriptions applied
+    explicitly, so that every stored text has also been in the application's hands), every text the pair knows - what each
+    getter of either peer returns now, what was last handed to either call of either peer, what either peer created - is
+    handed to setLocalDescription / setRemoteDescription of the peer under every type, verbatim.  Then the same call once
+    more (the same OBJECT a second time) and a legal call (nothing may have been damaged).  Every second case in `mut` mode:
+    the application overwrites the description objects after each call."""
+    out = []
+    k = 0
+    for cfg in ("dc", "av", "avd/u"):
+        for p in (0, 1):
+            for state, prefix in _prefixes(p, explicit=True).items():
+                if state == "stable":
+                    prefix = [[p, "createOffer"], [p ^ 1, "createOffer"]]
+                if state == "closed":       # closed after a negotiation: there are texts to re-use
+                    prefix = _prefixes(p, explicit=True)["stable/answered"] + prefix
+                for op in REUSE_OPS:
+                    for who in "op":
+                        for what in REUSE_WHAT:
+                            for typ in REUSE_TYPES:
+                                call = [p, op, f"{who}{what}-{typ}"]
+                                calls = [list(c) for c in prefix] + [call, list(call), [p, "setLocalImplicit"]]
+                                case = {"cfg": cfg, "calls": calls, "stream": "reuse"}
+                                k += 1
+                                if k % 2:
+                                    case["mut"] = True
+                                out.append(case)
+    return out
+
+
+def twin_matrix():
+    """Two pairs in one process.  Pair A (peers 0, 1) is brought into a state; then a peer of pair B (peers 2, 3) - itself fresh,
+    holding an offer of its own, or holding the very offer its twin holds - is handed a text of pair A under every type.  Whatever
+    happens to pair B, pair A must not notice (module-level state shared between connections shows up here)."""
+    out = []
+    k = 0
+    for cfg in ("dc", "av"):
+        for p in (0, 1):
+            pre = _prefixes(p, explicit=True)
+            for state in ("have-local-offer", "have-remote-offer", "stable/answered", "stable/offered"):
+                for own in ([], [[p + 2, "createOffer"], [p + 2, "setLocalOffer"]], [[p + 2, "setRemoteReuse", "xR-offer"]],
+                            [[p + 2, "setLocalReuse", "xL-offer"]]):
+                    for op in REUSE_OPS:
+                        for src in ("xl", "xr", "xL", "xR", "xn", "xc", "yl", "yL", "yR", "ya"):
+                            for typ in ("offer", "answer", "pranswer", "rollback"):
+                                calls = [list(c) for c in pre[state]] + [list(c) for c in own] + [[p + 2, op, f"{src}-{typ}"]]
+                                calls += [[p, "setLocalImplicit"]]
+                                case = {"cfg": cfg, "twin": True, "calls": calls, "stream": "twin"}
+                                k += 1
+                                if k % 3 == 0:
+                                    case["mut"] = True
+                                out.append(case)
+    return out
+
+
 RACE_NEG = ["createOffer", "createAnswer", "setLocalOffer", "setLocalAnswer", "setLocalImplicit", "setRemoteOffer",
             "setRemoteAnswer"]
 RACE_K = [0, 1, 2, 3, 4, 6, 9, 14]
@@ -945,7 +1181,10 @@ class Signaling(Component):
     theorems = ["step_refines_jsep", "run_refines_jsep", "failed_call_no_effect", "illegal_no_effect", "defective_no_effect",
                 "closed_absorbing", "closed_rejects", "no_crash", "implicit_never_fails", "inv_reachable",
                 "defective_section_no_effect", "session_level_covers", "resolve_section_local", "seqStep_eq_step",
-                "closed_absorbing_interleaved", "close_then_anything", "overtaken_by_close_refines_jsep"]
+                "closed_absorbing_interleaved", "close_then_anything", "overtaken_by_close_refines_jsep",
+                "rejected_call_keeps_descriptions", "rejected_relabel_keeps_type", "have_local_offer_rejects_relabelled",
+                "have_remote_offer_rejects_relabelled", "stable_rejects_any_answer", "same_offer_twice", "stepAt_frame",
+                "stepAt_failed", "runSys_proj", "runSys_untouched", "runSys_closed_absorbing"]
 
     def __init__(self):
         self._cache = {}
@@ -972,6 +1211,20 @@ class Signaling(Component):
             {"cfg": "av", "calls": [[1, "setLocalImplicit"], [1, "race", ["setRemoteAnswer"], ["close"], 1], [1, "createOffer"]]},
             {"cfg": "av", "calls": [[1, "race", ["close"], ["setRemoteOffer"], 0], [1, "setLocalImplicit"]]},
             {"cfg": "avd", "calls": [[0, "race", ["setLocalImplicit"], ["close"], 2], [0, "setLocalImplicit"]]},
+            # round 3 (parse-description-lru-cache): the pending offer handed back under another type (rejected: nothing may
+            # move, not even the type of the stored description); the peer's own offer fed back to it as remote offer; the same
+            # object twice; a second pair given the texts of the first; description objects overwritten by the application
+            {"cfg": "dc", "calls": [[0, "createOffer"], [0, "setLocalOffer"], [0, "setLocalReuse", "oL-answer"],
+                                    [0, "setRemoteReuse", "oL-offer"], [0, "setLocalReuse", "ol-answer"], [0, "setLocalOffer"]]},
+            {"cfg": "av", "mut": True,
+             "calls": [[0, "setLocalImplicit"], [1, "setRemoteOffer"], [1, "setRemoteReuse", "oR-answer"],
+                       [1, "setRemoteReuse", "oR-pranswer"], [1, "setLocalReuse", "or-answer"], [1, "setRemoteReuse", "oR-offer"],
+                       [1, "setLocalImplicit"], [1, "setRemoteReuse", "oR-answer"], [1, "setLocalReuse", "ol-offer"]]},
+            {"cfg": "dc", "twin": True, "mut": True,
+             "calls": [[0, "createOffer"], [0, "setLocalOffer"], [1, "setRemoteReuse", "pL-offer"], [3, "setRemoteReuse", "xR-offer"],
+                       [3, "setRemoteReuse", "xR-answer"], [2, "setLocalReuse", "xL-answer"], [2, "setLocalReuse", "xL-offer"],
+                       [1, "setLocalImplicit"], [0, "setRemoteAnswer"], [2, "setRemoteReuse", "xR-answer"], [3, "close"],
+                       [3, "setRemoteReuse", "xR-offer"]]},
             # complete negotiation, re-negotiation in the other direction, close
             {"cfg": "both", "calls": [[0, "createOffer"], [0, "setLocalOffer"], [1, "setRemoteOffer"], [1, "createAnswer"],
                                       [1, "setLocalAnswer"], [0, "setRemoteAnswer"], [1, "setLocalImplicit"], [0, "setRemoteOffer"],
@@ -1000,6 +1253,20 @@ class Signaling(Component):
             seq = [rng.choice(alphabet) for _ in range(n)]
             cfg = rng.choice(["audio", "both", "av", "avd", "avd/u"])
             out.append({"cfg": cfg, "calls": _with_variants(rng, seq, _nsec(cfg))})
+        # short sequences that end in calls RE-USING a text the pair has seen (any type), all on one pair / over two pairs
+        alphabet_r = alphabet + [(p, op) for p in (0, 1) for op in REUSE_OPS] * 3
+        for i in range(300 if tier == "quick" else 4000):
+            twin = i % 4 == 0
+            peers = 4 if twin else 2
+            seq = [rng.choice(alphabet_r) for _ in range(rng.choice([2, 3, 4]))] + [(0, rng.choice(REUSE_OPS))]
+            seq = [(rng.randrange(peers) if twin else p, op) for p, op in seq]
+            cfg = rng.choice(["dc", "audio", "av", "avd", "avd/u"])
+            case = {"cfg": cfg, "calls": _with_variants(rng, seq, _nsec(cfg), twin), "stream": "reuse-seq"}
+            if twin:
+                case["twin"] = True
+            if i % 3 == 0:
+                case["mut"] = True
+            out.append(case)
         # random longer sequences, biased towards progress (a walk that mostly follows a legal next call)
         n_rand = 1000 if tier == "quick" else 12000
         for i in range(n_rand):
@@ -1012,8 +1279,10 @@ class Signaling(Component):
                 if r < 0.55:
                     op = rng.choice(["setLocalImplicit", "setRemoteOffer", "setRemoteAnswer", "createAnswer", "setLocalAnswer",
                                      "createOffer", "setLocalOffer"])
-                elif r < 0.97:
+                elif r < 0.88:
                     op = rng.choice(OPS[:-1])
+                elif r < 0.97:
+                    op = rng.choice(REUSE_OPS) if sym else "setLocalImplicit"
                 else:
                     op = "close"
                 if not sym and op in ("setLocalOffer", "setLocalAnswer"):
@@ -1023,7 +1292,14 @@ class Signaling(Component):
                 seq.append((rng.randrange(2), op))
             if i % 10 == 0:
                 seq.insert(rng.randrange(len(seq) // 2, len(seq) + 1), (0, "settle"))
-            out.append({"cfg": cfg, "calls": _with_variants(rng, seq, _nsec(cfg))})
+            case = {"cfg": cfg, "calls": _with_variants(rng, seq, _nsec(cfg))}
+            if i % 4 == 1:
+                case["mut"] = True       # the application overwrites every description object after the call
+            out.append(case)
+        # re-used texts / a second pair in the same process, systematically (see reuse_matrix, twin_matrix)
+        rm, tm = reuse_matrix(), twin_matrix()
+        out += rm if tier != "quick" else rng.sample(rm, 420)
+        out += tm if tier != "quick" else rng.sample(tm, 140)
         # defective / mismatched descriptions over multi-section descriptions, systematically (see defect_matrix)
         dm = defect_matrix()
         out += dm if tier != "quick" else rng.sample(dm, 280)
@@ -1049,13 +1325,17 @@ class Signaling(Component):
             return
         from harness import core
         core.use_repo()
+        try:
+            import aiortc  # noqa: F401 - loaded ONCE here, the forked workers inherit it (16 concurrent imports cost 10+ s)
+        except Exception:  # noqa: BLE001 - the workers will report what is wrong with the tree
+            pass
         import multiprocessing as mp
         nproc = min(16, os.cpu_count() or 1, max(1, len(todo) // 20))
         if nproc <= 1:
             results = [_pool_run(c) for c in todo]
         else:
             with mp.get_context("fork").Pool(nproc) as pool:
-                results = pool.map(_pool_run, todo, chunksize=max(1, min(100, len(todo) // (nproc * 4))))
+                results = pool.map(_pool_run, todo, chunksize=max(1, min(20, len(todo) // (nproc * 4))))
         for c, r in zip(todo, results):
             self._cache[case_key(c)] = r
 
@@ -1095,6 +1375,13 @@ class Signaling(Component):
                 kind = "-".join(var[:2] + var[3:]) if stream == "defects" else "*"
                 return (f"{stream}:{kind}@{sel[0]['before'][sel[0]['p']]['state']}:"
                         + "/".join(sorted({x["res"] for x in sel})))
+        if stream in ("reuse", "twin", "reuse-seq"):
+            sel = [x for x in steps if x["op"] in REUSE_OPS]
+            if sel:
+                x = sel[-1] if stream == "twin" else sel[0]
+                src = x["var"].partition("-")[0]
+                return (f"{stream}:{x['op'][3:-5]}:{src if stream == 'reuse' else src[0]}-{x['arg']['type']}"
+                        f"@{x['before'][x['p']]['state']}:{x['res']}")
         if stream == "race":
             sel = [x for x in steps if x["op"] == "race"]
             if sel:
@@ -1128,6 +1415,10 @@ class Signaling(Component):
                 if sel != "all" and len(sel) > 1:
                     for ch in sel:
                         yield dict(case, calls=calls[:i] + [[c[0], c[1], f"{typ}-{what}-{ch}-{place}"]] + calls[i + 1:])
+        if case.get("mut"):
+            yield {k: v for k, v in case.items() if k != "mut"}
+        if case.get("twin") and all(c[0] < 2 for c in calls):
+            yield {k: v for k, v in case.items() if k != "twin"}
         if case["cfg"].endswith("/u"):
             yield dict(case, cfg=case["cfg"][:-2])
         elif case["cfg"] not in ("dc", "av"):
